@@ -61,6 +61,9 @@ def main():
             continue
         kind, rv, st = co.last()
         stat_hist[(kind, STATUS.get(st, st) if rv == 0 else "rval!=0")] = stat_hist.get((kind, STATUS.get(st, st) if rv == 0 else "rval!=0"), 0) + 1
+        if kind == "EXACT" and co.traces:
+            q.append(trace_query(cid + ".r", co.traces[-1], meta[cid][1]["entry"][-1], False))
+            want[cid + ".r"] = ("trace", co)
         q.append("Q %s.t toint\n%s\n%s" % (cid, co.ilp_text(), co.ulp_text()))
         want[cid + ".t"] = ("toint", co)
         if rv == 0 and st == 1:
@@ -85,7 +88,8 @@ def main():
             if [s.split() for s in sol] != exp:
                 ck.violation("solacc_%s.txt" % cid, dict(cases)[cid], "QSget_solution differs from the individual accessors", match=dict(kind="solution-acc"))
     ans = run_model("drv_solve", "\n".join(q) + "\n")
-    nopt = 0
+    nopt = ntrace = maxlevel = 0
+    exits = {}
     for qid, (kind, co) in want.items():
         cid = qid.rsplit(".", 1)[0]
         lp, cfg = meta[cid]
@@ -105,6 +109,22 @@ def main():
                              match=dict(kind="kkt-sentinel" if lit else "kkt", entry=co.last()[0]))
             else:
                 ck.sample(dict(lp=lp["name"], cfg={k: v for k, v in cfg.items()}, objval=co.acc["objval"][1][0]))
+        elif kind == "trace":
+            tr = co.traces[-1]
+            ex = trace_exit(tr)
+            _, rv, st = co.last()
+            ntrace += 1
+            exits[r[2] if r else "?"] = exits.get(r[2] if r else "?", 0) + 1
+            maxlevel = max(maxlevel, trace_levels(tr))
+            model = (int(r[0]), int(r[1])) if r else None
+            real = (1 if rv != 0 else 0, st)
+            if model is None or ex != real or (model != real and not (model[0] == 1 and real[0] == 1)):
+                ck.violation("drvtrace_%s.txt" % cid, dict(cases)[cid] + "\n# trace: %s\n# model: %s\n# real: %s" % (tr, r, real),
+                             "correspondence Driver.exact_solver vs QSexact_solver broke: model %s, real (rval,status) %s, exit event %s" % (r, real, ex),
+                             no_input=True, match=dict(kind="corr-driver"))
+            if r and r[2] == "exhausted" and real[0] == 0 and st in (1, 2):
+                ck.violation("exhausted_%s.txt" % cid, dict(cases)[cid], "QSexact_solver returned status %d through ladder exhaustion (no certificate)" % st,
+                             match=dict(kind="exhausted-definitive"))
         elif kind == "dz":
             n = co.dims()[2]
             if r is None or r[:n] != co.acc["rc"][1]:
@@ -166,6 +186,7 @@ def main():
                       "reported OPTIMAL and the certificate was judged by extracted check_kkt; distinct by (LP data, configuration)")
     ck.cov["status_histogram"] = {"%s/%s" % k: v for k, v in sorted(stat_hist.items())}
     ck.cov["optimal_judged"] = nopt
+    ck.cov["driver_traces_replayed"] = dict(n=ntrace, exit_labels=exits, max_level_reached=maxlevel)
     ck.cov["evaluations"] = len(cases)
     ck.assumptions = ["Coq kernel + vm_compute; extraction (ExtrOcamlBasic) and OCaml compiler for the oracle",
                       "h_solve harness and text protocol", "GMP arithmetic = exact rational arithmetic"]
